@@ -84,12 +84,24 @@ impl ClassSet {
             cps: codepoints,
         });
         if self.alternatives.0.is_empty() {
-            bracket
-        } else if codepoints_empty {
-            self.alternatives.into_node(icase)
-        } else {
-            make_alt(Vec::from([self.alternatives.into_node(icase), bracket]))
+            return bracket;
         }
+        // Strings are tried longest first, then the single code points, and the
+        // empty string (if it is a member) last.
+        let mut strings = self.alternatives;
+        let has_empty = strings.0.iter().any(|s| s.is_empty());
+        strings.0.retain(|s| !s.is_empty());
+        let mut arms = Vec::new();
+        if !strings.0.is_empty() {
+            arms.push(strings.into_node(icase));
+        }
+        if !codepoints_empty {
+            arms.push(bracket);
+        }
+        if has_empty {
+            arms.push(ir::Node::Empty);
+        }
+        make_alt(arms)
     }
 
     fn union_operand(&mut self, operand: ClassSetOperand) {
@@ -1236,20 +1248,16 @@ where
                         let mut alternative = Vec::new();
                         loop {
                             match self.peek() {
+                                // Note an alternative may be empty: \q{} and \q{a|} contain the empty string.
                                 Some(0x7D /* } */) => {
                                     self.consume('}');
-                                    if !alternative.is_empty() {
-                                        alternatives.push(alternative.into_boxed_slice());
-                                    }
+                                    alternatives.push(alternative.into_boxed_slice());
                                     break;
                                 }
                                 Some(0x7C /* | */) => {
                                     self.consume('|');
-                                    if !alternative.is_empty() {
-                                        let alternative = mem::take(&mut alternative).into_boxed_slice();
-                                        alternatives.push(alternative);
-
-                                    }
+                                    let alternative = mem::take(&mut alternative).into_boxed_slice();
+                                    alternatives.push(alternative);
                                 }
                                 Some(_) => {
                                     alternative.push(self.consume_class_set_character()?);
